@@ -295,14 +295,15 @@ func init() {
 				{W: wParams{Dir: "down", Tree: "small3", Compress: 2, Timeout: 3}},
 				{W: wParams{Dir: "up", Tree: "one:E:3000", Protocol: 2, Timeout: 3}},
 				{W: wParams{Dir: "down", Tree: "one:R:21000", Binary: true, Tunnel: true, Timeout: 3}},
+				// the hash exchange of a resumed transfer (64-byte blocks): a shorter equal prefix; equal blocks, then a different one
+				{W: wParams{Dir: "up", Tree: "one:E:200", Overwrite: true, DstPre: "c08:shorter:40@-1", Timeout: 3}, Step: 64},
+				{W: wParams{Dir: "down", Tree: "one:E:200", Overwrite: true, Protocol: 3, DstPre: "c08:same@130", Timeout: 3}, Step: 64},
 			}
 			if tier == "thorough" {
 				cfgs = append(cfgs,
 					c02Params{W: wParams{Dir: "down", Tree: "one:E:3000", Protocol: 1, Timeout: 3}},
 					c02Params{W: wParams{Dir: "up", Tree: "dir", Directory: true, Timeout: 3}},
 					c02Params{W: wParams{Dir: "down", Tree: "dir", Directory: true, Protocol: 3, Timeout: 3}},
-					c02Params{W: wParams{Dir: "up", Tree: "one:E:200", Overwrite: true, DstPre: "c08:shorter:40@-1", Timeout: 3}, Step: 64},
-					c02Params{W: wParams{Dir: "down", Tree: "one:E:200", Overwrite: true, Protocol: 3, DstPre: "c08:same@130", Timeout: 3}, Step: 64},
 					c02Params{W: wParams{Dir: "up", Tree: "one:E:3000", Binary: true, EscapeAll: true, Timeout: 3}},
 					c02Params{W: wParams{Dir: "up", Tree: "small3", Relays: 1, Timeout: 3}},
 					c02Params{W: wParams{Dir: "down", Tree: "small3", WinNL: "client", Timeout: 3}},
